@@ -54,60 +54,74 @@ def scenario(cell):
         th.freeEnergyLow.disableAdaptiveInterpolation()
         th.setExtrapolate()
         evs.append({"e": "SetExtrapolate"})
-        for phase, br, P, DP, DDP, E, W, CS, tmin, tmax in (
-            ("high", hi, th.pHighT, th.dpHighT, th.ddpHighT, th.eHighT, th.wHighT, th.csqHighT, th.TMinHighT, th.TMaxHighT),
-            ("low", lo, th.pLowT, th.dpLowT, th.ddpLowT, th.eLowT, th.wLowT, th.csqLowT, th.TMinLowT, th.TMaxLowT)):
-            f = lambda fn: (lambda T: float(fn(float(T))))
-            P, DP, DDP, E, W, CS = map(f, (P, DP, DDP, E, W, CS))
-            span = tmax - tmin
-            # inside: mid points of table intervals (the table is a cubic spline: the derivative
-            # checks use a stencil that stays within one interval, where they are exact)
-            fe = th.freeEnergyHigh if phase == "high" else th.freeEnergyLow
-            knots = np.asarray(fe._interpolationPoints, float)
-            kk = np.where((knots[:-1] > tmin + 0.02 * span) & (knots[1:] < tmax - 0.02 * span))[0]
-            kk = kk[np.linspace(0, len(kk) - 1, 25).astype(int)]
-            mids, widths = 0.5 * (knots[kk] + knots[kk + 1]), knots[kk + 1] - knots[kk]
-            regs = {"below": np.linspace(0.2 * tmin, tmin * (1 - 1e-3), 25),
-                    "inside": mids,
-                    "above": np.linspace(tmax * (1 + 1e-3), 3 * tmax, 25)}
-            for reg, Ts in regs.items():
-                we = ww = wc = wdp = wddp = 16
-                for iT, T in enumerate(Ts):
-                    p, dp, ddp, e, w, cs = P(T), DP(T), DDP(T), E(T), W(T), CS(T)
-                    we = min(we, quant.reldigits(e, T * dp - p))
-                    ww = min(ww, quant.reldigits(w, T * dp))
-                    # cs2 = dp/de with de = T ddp ; outside the range the sound speed is frozen at the end value
-                    if reg == "inside":
-                        wc = min(wc, quant.reldigits(cs, dp / (T * ddp)))
-                    else:
-                        wc = min(wc, quant.reldigits(cs, dp / (T * ddp)))
-                    # keep the whole 7-point stencil inside the region (p is only C^2 across a range end)
-                    room = {"below": tmin - T, "inside": min(T - tmin, tmax - T), "above": T - tmax}[reg]
-                    h = min(2e-3 * T, 0.3 * room)
-                    if reg == "inside":
-                        h = 0.15 * widths[iT]
-                    wdp = min(wdp, quant.reldigits(dp, d6(P, T, h)))
-                    wddp = min(wddp, quant.reldigits(ddp, d6(DP, T, h)))
-                base = {"e": "Obs", "kind": "identity", "phase": phase, "region": reg, "nSamples": len(Ts),
-                        "tLo": int(round(Ts[0] / Tn * TICK)), "tHi": int(round(Ts[-1] / Tn * TICK)),
-                        "tmin": int(round(tmin / Tn * TICK)), "tmax": int(round(tmax / Tn * TICK))}
-                for what, d in (("e", we), ("w", ww), ("cs2", wc), ("dp", wdp), ("ddp", wddp)):
-                    evs.append(dict(base, what=what, d=d))
-            for end, Tb in (("TMin", tmin), ("TMax", tmax)):
-                eps = 1e-9
-                for what, fn in (("p", P), ("dp", DP), ("ddp", DDP), ("cs2", CS)):
-                    a, b = fn(Tb * (1 - eps)), fn(Tb * (1 + eps))
-                    evs.append({"e": "Obs", "kind": "continuity", "phase": phase, "end": end, "what": what, "d": quant.reldigits(a, b)})
-            Ts = regs["inside"]
-            # p = -V(min): compare the field-dependent part (the common -cT^4 background would hide errors)
-            pv = np.array([P(T) for T in Ts])
-            ex = -np.asarray(m.Vmin(br, Ts), float)
-            bg = m.c * Ts**4
-            evs.append({"e": "Obs", "kind": "inside", "phase": phase, "d": quant.digits(np.max(np.abs(pv - ex)) / max(np.max(np.abs(ex - bg)), 1e-4 * np.max(np.abs(ex))))})
+        passes = [None] if not cell.get("history") else [None, cell["history"]]
+        for hist in passes:
+          if hist is not None:
+            # the SAME Thermodynamics object, its tables rebuilt: with a finer step, or after a parameter of the potential changed
+            if hist == "param":
+                if cell["model"] == "one":
+                    m.E *= 1.04
+                else:
+                    m.mus2 *= 1.03
+            th.freeEnergyHigh.tracePhase(rng_hi[0], rng_hi[1], dT / 3, rTol=1e-6)
+            th.freeEnergyLow.tracePhase(rng_lo[0], rng_lo[1], dT / 3, rTol=1e-6)
+            evs.append({"e": "Retrace"})
+            th.setExtrapolate()
+            evs.append({"e": "SetExtrapolate"})
+          for phase, br, P, DP, DDP, E, W, CS, tmin, tmax in (
+              ("high", hi, th.pHighT, th.dpHighT, th.ddpHighT, th.eHighT, th.wHighT, th.csqHighT, th.TMinHighT, th.TMaxHighT),
+              ("low", lo, th.pLowT, th.dpLowT, th.ddpLowT, th.eLowT, th.wLowT, th.csqLowT, th.TMinLowT, th.TMaxLowT)):
+              f = lambda fn: (lambda T: float(fn(float(T))))
+              P, DP, DDP, E, W, CS = map(f, (P, DP, DDP, E, W, CS))
+              span = tmax - tmin
+              # inside: mid points of table intervals (the table is a cubic spline: the derivative
+              # checks use a stencil that stays within one interval, where they are exact)
+              fe = th.freeEnergyHigh if phase == "high" else th.freeEnergyLow
+              knots = np.asarray(fe._interpolationPoints, float)
+              kk = np.where((knots[:-1] > tmin + 0.02 * span) & (knots[1:] < tmax - 0.02 * span))[0]
+              kk = kk[np.linspace(0, len(kk) - 1, 25).astype(int)]
+              mids, widths = 0.5 * (knots[kk] + knots[kk + 1]), knots[kk + 1] - knots[kk]
+              regs = {"below": np.linspace(0.2 * tmin, tmin * (1 - 1e-3), 25),
+                      "inside": mids,
+                      "above": np.linspace(tmax * (1 + 1e-3), 3 * tmax, 25)}
+              for reg, Ts in regs.items():
+                  we = ww = wc = wdp = wddp = 16
+                  for iT, T in enumerate(Ts):
+                      p, dp, ddp, e, w, cs = P(T), DP(T), DDP(T), E(T), W(T), CS(T)
+                      we = min(we, quant.reldigits(e, T * dp - p))
+                      ww = min(ww, quant.reldigits(w, T * dp))
+                      # cs2 = dp/de with de = T ddp ; outside the range the sound speed is frozen at the end value
+                      if reg == "inside":
+                          wc = min(wc, quant.reldigits(cs, dp / (T * ddp)))
+                      else:
+                          wc = min(wc, quant.reldigits(cs, dp / (T * ddp)))
+                      # keep the whole 7-point stencil inside the region (p is only C^2 across a range end)
+                      room = {"below": tmin - T, "inside": min(T - tmin, tmax - T), "above": T - tmax}[reg]
+                      h = min(2e-3 * T, 0.3 * room)
+                      if reg == "inside":
+                          h = 0.15 * widths[iT]
+                      wdp = min(wdp, quant.reldigits(dp, d6(P, T, h)))
+                      wddp = min(wddp, quant.reldigits(ddp, d6(DP, T, h)))
+                  base = {"e": "Obs", "kind": "identity", "phase": phase, "region": reg, "nSamples": len(Ts),
+                          "tLo": int(round(Ts[0] / Tn * TICK)), "tHi": int(round(Ts[-1] / Tn * TICK)),
+                          "tmin": int(round(tmin / Tn * TICK)), "tmax": int(round(tmax / Tn * TICK))}
+                  for what, d in (("e", we), ("w", ww), ("cs2", wc), ("dp", wdp), ("ddp", wddp)):
+                      evs.append(dict(base, what=what, d=d))
+              for end, Tb in (("TMin", tmin), ("TMax", tmax)):
+                  eps = 1e-9
+                  for what, fn in (("p", P), ("dp", DP), ("ddp", DDP), ("cs2", CS)):
+                      a, b = fn(Tb * (1 - eps)), fn(Tb * (1 + eps))
+                      evs.append({"e": "Obs", "kind": "continuity", "phase": phase, "end": end, "what": what, "d": quant.reldigits(a, b)})
+              Ts = regs["inside"]
+              # p = -V(min): compare the field-dependent part (the common -cT^4 background would hide errors)
+              pv = np.array([P(T) for T in Ts])
+              ex = -np.asarray(m.Vmin(br, Ts), float)
+              bg = m.c * Ts**4
+              evs.append({"e": "Obs", "kind": "inside", "phase": phase, "d": quant.digits(np.max(np.abs(pv - ex)) / max(np.max(np.abs(ex - bg)), 1e-4 * np.max(np.abs(ex))))})
         evs.append({"e": "End"})
     except Exception as ex:
         evs.append({"e": "Exception", "out": type(ex).__name__, "msg": str(ex)[:200]})
-    return {"id": "eos_{model}_tn{tn}_u{u}_dT{dT}".format(**cell), "ev": evs, "cell": cell}
+    return {"id": "eos_{model}_tn{tn}_u{u}_dT{dT}".format(**cell) + ("_" + cell["history"] if cell.get("history") else ""), "ev": evs, "cell": cell}
 
 
 def run(chk, tier, seed):
@@ -121,6 +135,11 @@ def run(chk, tier, seed):
                     cells.append(dict(model=mdl, tn=tn, u=u, dT=dT))
     if tier == "quick":
         cells = [c for c in cells if c["dT"] == 3e-3 and c["tn"] in (1.02, 0.93)]
+    # histories on one object: tables rebuilt with a finer step / after a parameter change, all obligations again
+    for mdl, tn in (("one", 1.02), ("two", 0.93)):
+        for u in ((1.0,) if tier == "quick" else (1.0, 0.01, 100.0)):
+            for hist in ("refine", "param"):
+                cells.append(dict(model=mdl, tn=tn, u=u, dT=3e-3, history=hist))
     with Pool(16) as pool:
         traces = pool.map(scenario, cells, chunksize=1)
     for tr in traces:
